@@ -19,6 +19,7 @@
 -/
 import PomerolModel.Spec.Bridge
 import PomerolModel.Spec.Chi4Refine
+import PomerolModel.Spec.Chi4PrepareSpec
 
 namespace Pomerol.Properties.C02
 open Matrix Complex Pomerol Pomerol.Spec
@@ -254,5 +255,142 @@ example : computeAsSource (K := ℤ) (fun _ _ _ _ => true) [[(0, 1), (1, 2)], [(
   decide
 
 end enumeration
+
+/-! ### the world-stripe selection of `TwoParticleGF::prepare`
+
+`sparse_enumeration_is_ordered_lehmann` sums over ALL quadruples of blocks.  The library does not create
+a part for every quadruple: `TwoParticleGF::prepare` runs over the pairs of CX4's block bimap and the six
+permutations and follows the block maps of the other three operators (`getRightIndex`, `getLeftIndex`);
+a part is created only when the chain of blocks closes.  `Model/Chi4Prepare.lean` models that loop,
+`Spec/Chi4PrepareSpec.lean` proves that it selects exactly the closing chains, each once, and that the
+selected parts carry the whole sum. -/
+
+section selection
+open Pomerol.Model.Chi4Prepare Pomerol.Spec.Chi4PrepareSpec Pomerol.Spec.Chi4Refine
+open Pomerol.Model.Chi4Part (SpMat)
+
+/-- THE WORLD-STRIPE SELECTION IS COMPLETE AND CREATES NO PART TWICE.
+In plain words: every field operator maps a block of the Hamiltonian to at most one block, and the library
+records these maps as bimaps of `(LeftIndex, RightIndex)` pairs (`<Left|Op|Right>` is a non-zero block).
+For each of the six orderings `p` of the first three operators and each pair `<b3|CX4|b0>` of CX4's bimap
+`prepare` computes `b1` as the right partner of `b0` under the operator at position 0, `b2` as the left
+partner of `b3` under the operator at position 2, and creates a part when the operator at position 1 maps
+`b1` to `b2`.  This theorem says: if the bimaps are what the bimap type guarantees (`IsBimap`: no left
+block twice, no right block twice; for CX4 only the right side is needed), then the list of parts created
+has no repetition, and a part exists for `(p, b0, b1, b2, b3)` if and only if `p < 6`,
+`<b0|O_{p,0}|b1>`, `<b1|O_{p,1}|b2>`, `<b2|O_{p,2}|b3>`, `<b3|CX4|b0>` are all recorded blocks
+(`O_{p,k}` = operator number `permutations3[p].perm[k]`: `0 ↦ C1`, `1 ↦ C2`, `2 ↦ CX3`) and at least one
+of the four blocks is retained by the density-matrix truncation.  No closing chain is missed, none is
+selected twice, nothing else is selected. -/
+theorem world_stripes_complete (retained : ℕ → Bool) (c1 c2 cx3 cx4 : BlockMap)
+    (h1 : IsBimap c1) (h2 : IsBimap c2) (h3 : IsBimap cx3) (h4 : RightUnique cx4) :
+    (prepare retained c1 c2 cx3 cx4).Nodup ∧
+    ∀ p b0 b1 b2 b3, (p, b0, b1, b2, b3) ∈ prepare retained c1 c2 cx3 cx4 ↔
+      p < 6 ∧ (b0, b1) ∈ opAt c1 c2 cx3 (permAt p 0) ∧ (b1, b2) ∈ opAt c1 c2 cx3 (permAt p 1) ∧
+        (b2, b3) ∈ opAt c1 c2 cx3 (permAt p 2) ∧ (b3, b0) ∈ cx4 ∧
+        (retained b0 = true ∨ retained b1 = true ∨ retained b2 = true ∨ retained b3 = true) :=
+  stripes_selected_exactly retained c1 c2 cx3 cx4 h1 h2 h3 h4
+
+/-- the single-orbital case: blocks `0` (empty) and `1` (occupied); `c` maps `1 → 0` (`<0|c|1>`), `c†`
+maps `0 → 1` (`<1|c†|0>`).  Of the six orderings only `c c† c c†`-type chains close: `p = 1`
+(`C1, CX3, C2`) and `p = 3` (`C2, CX3, C1`), both through the blocks `0, 1, 0, 1` -/
+example : prepare (fun _ => true) [(0, 1)] [(0, 1)] [(1, 0)] [(1, 0)]
+    = [(1, 0, 1, 0, 1), (3, 0, 1, 0, 1)] := by decide
+
+/-- truncation: with only block `5` retained nothing is created -/
+example : prepare (fun b => b == 5) [(0, 1)] [(0, 1)] [(1, 0)] [(1, 0)] = [] := by decide
+
+/-- THE PARTS CREATED BY `TwoParticleGF::prepare` COMPUTE THE TWO-PARTICLE GREEN'S FUNCTION.
+In plain words: split the eigenbasis into `nB` blocks; let `O 0, O 1, O 2, X` be the matrices of
+`C1, C2, CX3, CX4`, `bm k` / `cx4` their block bimaps, which list (at least) every block where the matrix
+is not zero, and let every block be stored in compressed form.  Create parts as `prepare` does (nothing
+truncated), let every part enumerate its world lines as `TwoParticleGFPart::compute` does and accumulate
+the matrix-element products times the multi-term of the four levels.  Then
+
+* for every ordering `p`, the parts selected for `p` add up to the per-ordering Lehmann sum over ALL
+  quadruples of eigenstates (`orderedLehmann`; the block quadruples that get no part contribute nothing);
+* the signed sum over all parts created is `d.chiLehmann O X z`, and at fermionic frequencies this is the
+  definition `d.chiDef O X z` of the two-particle Green's function (`chi_equals_definition`). -/
+theorem selected_stripes_compute_chi {nB : ℕ} {sz : Fin nB → ℕ} (d : EigenData (GFRefine.Basis sz))
+    (O : Fin 3 → Matrix (GFRefine.Basis sz) (GFRefine.Basis sz) ℂ)
+    (X : Matrix (GFRefine.Basis sz) (GFRefine.Basis sz) ℂ) (z : Fin 3 → ℂ)
+    (R C : Fin 3 → Fin nB → Fin nB → SpMat ℂ) (CX : Fin nB → Fin nB → SpMat ℂ)
+    (hR : ∀ k b b', RowMajorOf (R k b b') (blockOf (O k) b b'))
+    (hC : ∀ k b b', ColMajorOf (C k b b') (blockOf (O k) b b'))
+    (hX : ∀ b b', ColMajorOf (CX b b') (blockOf X b b'))
+    (bm : Fin 3 → BlockMap) (cx4 : BlockMap) (hbm : ∀ k, IsBimap (bm k)) (h4 : RightUnique cx4)
+    (hO : ∀ k, GFRefine.CoversBlocks (bm k) (O k)) (hX4 : GFRefine.CoversBlocks cx4 X) :
+    (∀ p : Fin 6,
+      ((stripesOf p.1 (prepare (fun _ => true) (bm 0) (bm 1) (bm 2) cx4)).map
+          (stripeValue d z R C CX)).sum
+        = d.orderedLehmann (O (permFn p 0)) (O (permFn p 1)) (O (permFn p 2)) X
+            (z (permFn p 0)) (z (permFn p 1)) (z (permFn p 2))) ∧
+    ((prepare (fun _ => true) (bm 0) (bm 1) (bm 2) cx4).map fun s =>
+        ((permEntry s.1).2 : ℂ) * stripeValue d z R C CX s).sum = d.chiLehmann O X z ∧
+    ((∀ k, Complex.exp ((d.β:ℂ) * z k) = -1) →
+      ((prepare (fun _ => true) (bm 0) (bm 1) (bm 2) cx4).map fun s =>
+        ((permEntry s.1).2 : ℂ) * stripeValue d z R C CX s).sum = d.chiDef O X z) := by
+  have hchi := selected_stripes_sum_to_chi d O X z R C CX hR hC hX bm cx4 hbm h4 hO hX4
+  refine ⟨fun p => ?_, hchi, fun hz => by rw [hchi, chi_lehmann d O X z hz]⟩
+  obtain ⟨e1, e2⟩ := selected_stripes_sum_to_ordered_lehmann d O X z R C CX hR hC hX bm cx4 hbm h4
+    hO hX4 p
+  rw [e1, e2]
+
+/-! #### a concrete instance of the hypotheses of `selected_stripes_compute_chi` (non-vacuity) -/
+
+section SelectionExample
+open GFRefine (Basis CoversBlocks)
+
+/-- two blocks with one state each (one orbital: empty / occupied) -/
+private def sz2 : Fin 2 → ℕ := fun _ => 1
+/-- `c`: `<0|c|1> = 1` -/
+private def exC : Matrix (Basis sz2) (Basis sz2) ℂ := fun a b => if a.1 = 0 ∧ b.1 = 1 then 1 else 0
+/-- `c†`: `<1|c†|0> = 1` -/
+private def exCX : Matrix (Basis sz2) (Basis sz2) ℂ := fun a b => if a.1 = 1 ∧ b.1 = 0 then 1 else 0
+private def exO : Fin 3 → Matrix (Basis sz2) (Basis sz2) ℂ := ![exC, exC, exCX]
+private def exBm : Fin 3 → BlockMap := ![[(0, 1)], [(0, 1)], [(1, 0)]]
+
+private theorem exC_covers : CoversBlocks [(0, 1)] exC := by
+  intro L R h
+  by_contra hn
+  apply h
+  ext i j
+  show (if L = 0 ∧ R = 1 then (1 : ℂ) else 0) = 0
+  rw [if_neg]
+  rintro ⟨rfl, rfl⟩
+  exact hn (by simp)
+
+private theorem exCX_covers : CoversBlocks [(1, 0)] exCX := by
+  intro L R h
+  by_contra hn
+  apply h
+  ext i j
+  show (if L = 1 ∧ R = 0 then (1 : ℂ) else 0) = 0
+  rw [if_neg]
+  rintro ⟨rfl, rfl⟩
+  exact hn (by simp)
+
+/-- all hypotheses hold for the one-orbital system (levels `0`, `1`, `β = 1`) with every block stored
+entry by entry (`storeRows`): the two parts created (see the `example` after `world_stripes_complete`)
+compute `χ` of this system -/
+example (z : Fin 3 → ℂ) :
+    ((prepare (fun _ => true) [(0, 1)] [(0, 1)] [(1, 0)] [(1, 0)]).map fun s =>
+        ((permEntry s.1).2 : ℂ) * stripeValue
+          (⟨1, one_pos, fun x => (x.1.1 : ℝ)⟩ : EigenData (Basis sz2)) z
+          (fun k b b' => storeRows (fun _ => true) (blockOf (exO k) b b'))
+          (fun k b b' => storeRows (fun _ => true) (blockOf (exO k) b b')ᵀ)
+          (fun b b' => storeRows (fun _ => true) (blockOf exCX b b')ᵀ) s).sum
+      = EigenData.chiLehmann (⟨1, one_pos, fun x => (x.1.1 : ℝ)⟩ : EigenData (Basis sz2))
+          exO exCX z :=
+  (selected_stripes_compute_chi _ exO exCX z _ _ _
+    (fun k b b' => storeRows_rowMajorOf _ (fun _ h => by simp at h) _)
+    (fun k b b' => storeRows_colMajorOf _ (fun _ h => by simp at h) _)
+    (fun b b' => storeRows_colMajorOf _ (fun _ h => by simp at h) _)
+    exBm [(1, 0)] (by intro k; fin_cases k <;> decide) (by decide)
+    (by intro k; fin_cases k <;> first | exact exC_covers | exact exCX_covers) exCX_covers).2.1
+
+end SelectionExample
+
+end selection
 
 end Pomerol.Properties.C02
